@@ -15,8 +15,8 @@ def main(tier):
     dep.surface_fallback(P, rep)
     dep.alias_callers(P, rep)
     footprint.alias_wrappers(P, rep)
-    rep.assumptions.append("whether the numeric size of the spherical buffer is large enough near the poles, and the kd-tree pruning "
-                           "arithmetic, are NOT decided (DESIGN.md §4 C07)")
+    rep.assumptions.append("both longitude buffers of the spherical box dominate b/cos(latitude) at the two trench ends; whether the margin 2*pi "
+                           "suffices for points still closer to the pole, and the kd-tree pruning arithmetic, are NOT decided (DESIGN.md §4 C07, §10.17)")
     # the answer does not depend on what was queried before (no cache that outlives a query: a necessary condition for a
     # statement about 'all worlds and all points', which includes a second world in the same process)
     pure.run(P, rep, pure.query_roots(P))
